@@ -88,7 +88,7 @@ FUNCS = {'calls': ['leaf', 'mid'], 'recursion': ['fact', 'fib'], 'exceptions': [
          'finalizers': ['use'], 'finalizers_nogc': ['use'], 'classes': ['deposit', 'fee', 'inc'], 'data': ['build', 'mutate'], 'loops': ['scan'],
          'ghost': ['handle', 'helper'], 'tracking_dicts': ['configure'], 'owned_exception': ['parse'],
          'one_shot': ['prepare', 'gen'], 'del_order': ['main'], 'closure_threads': ['audit', 'deposit'],
-         'modbody': ['helper', 'size', '<module>', 'Shelf']}
+         'modbody': ['helper', 'size', '<module>', 'Shelf'], 'spy': ['look']}
 
 
 def random_tp(rng, prog, idx):
@@ -188,6 +188,13 @@ def corpus():
          'tps': [{'id': 'tp0', 'kind': 'snapshot', 'mark': 'C', 'fire_count': '-1', 'frame_type': 'all_frame', 'watches': ['slots']},
                  {'id': 'tp1', 'kind': 'snapshot', 'mark': 'D', 'fire_count': '-1', 'watches': ['__qualname__', 'locals()']},
                  {'id': 'tp2', 'kind': 'snapshot_log', 'mark': 'N', 'fire_count': '-1', 'log_msg': 't={total}'}]},
+        # a recording host object as a local, a list item and a dict value: snapshot (all frames) + watches + log template +
+        # metric expression + condition on it; every dunder the agent touches is checked (oracle + host-touch table)
+        {'kind': 'scenario', 'prog': 'spy', 'inp': 1,
+         'tps': [{'id': 'tp0', 'kind': 'snapshot_log', 'mark': 'B', 'fire_count': '-1', 'frame_type': 'all_frame',
+                  'watches': ['s', 'box', 'len(box)'], 'log_msg': 's={s} box={box}', 'condition': 's'},
+                 {'id': 'tp1', 'kind': 'metric', 'mark': 'B', 'fire_count': '-1',
+                  'metrics': [{'type': 'GAUGE', 'expr': 's', 'labels': [['who', None, 's']]}]}]},
         # all four action kinds on one line of a threaded host
         {'kind': 'scenario', 'prog': 'threads', 'inp': 1,
          'tps': [{'id': 'tp0', 'kind': 'snapshot_log', 'mark': 'A', 'fire_count': '-1', 'log_msg': 'k={k}', 'watches': ['box']},
@@ -430,6 +437,9 @@ def agent_run(case, fault):
             info['probe_ret'] = 'raised ' + type(e).__name__
         info['trace_kept_after_probe'] = (sys.gettrace() == handler.trace_call)
 
+    spy_log = getattr(h.modules[case['prog']], 'TOUCHED', None)
+    if spy_log is not None:
+        del spy_log[:]
     old_thr = threading.gettrace()
     faultinj.arm(fault['k'] if fault else None, fault['cls'] if fault else 'exc', record=fault is None)
     threading.settrace(handler.trace_call)
@@ -491,7 +501,8 @@ def agent_run(case, fault):
             'escaped': rep['escaped'] + rep2['escaped'][len(rep['escaped']):], 'effects': effects,
             'count': info.get('count', rep['count']), 'call_regions': info.get('regions', []),
             'entries': rep['entries'], 'fault': rep, 'snapshots_sent': sent_ok,
-            'none_returns': rep['none_returns'] + rep2['none_returns']}
+            'none_returns': rep['none_returns'] + rep2['none_returns'],
+            'touched': sorted(set(spy_log)) if spy_log is not None else None}
 
 
 def reference(case):
@@ -548,6 +559,7 @@ def run_impl(case):
     rep = r['fault']
     obs.update({k: r[k] for k in ('host', 'trace_kept', 'probe_same', 'probe_new', 'escaped', 'effects', 'entries',
                                   'none_returns')})
+    obs['touched'] = r.get('touched')
     obs['fired'] = rep['fired']
     obs['region'] = rep['region']
     obs['catcher'] = rep['catcher']
@@ -582,6 +594,10 @@ def oracle(case, obs):
     if obs['host'] != obs['baseline']:
         v.append(f'host program behaves differently with the agent attached: {json.dumps(obs["host"])[:300]} vs '
                  f'{json.dumps(obs["baseline"])[:300]} without')
+    bad = [n for n in (obs.get('touched') or []) if n not in SIDE_EFFECT_FREE]
+    if bad:
+        v.append(f'the agent invoked {bad} on a host object: not a side-effect-free protocol (a store, a delete, a call, '
+                 f'a context manager, arithmetic or advancing an iterator changes or runs host state)')
     if not obs['trace_kept']:
         v.append('sys.gettrace() of the traced thread is no longer the handler')
     if obs['none_returns']:
@@ -646,7 +662,23 @@ def text_stack(obs):
     return out
 
 
+# dunder -> (kind, protocol) of the host-touch table that explains it
+DUNDER_ROW = {'__getattribute__': ('read', 'getattr'), '__str__': ('read', 'str'), '__repr__': ('read', 'repr'),
+              '__format__': ('read', 'format'), '__len__': ('read', 'len'), '__iter__': ('read', 'iter'),
+              '__getitem__': ('read', 'getitem'), '__contains__': ('read', 'contains'), '__eq__': ('read', 'eq'),
+              '__hash__': ('read', 'hash'), '__bool__': ('read', 'bool'), '__float__': ('read', 'number'),
+              '__int__': ('read', 'number'), '__index__': ('read', 'number'), '__call__': ('call', 'call'),
+              '__enter__': ('enter', 'with'), '__exit__': ('enter', 'with'), '__next__': ('consume', 'next'),
+              '__setitem__': ('write', 'setitem'), '__delitem__': ('write', 'delitem'), '__setattr__': ('write', 'setattr'),
+              '__delattr__': ('write', 'delattr')}
+# the protocols the property's quantifier takes to be free of side effects (from the statement, not from the table)
+SIDE_EFFECT_FREE = {'__getattribute__', '__str__', '__repr__', '__format__', '__len__', '__iter__', '__getitem__',
+                    '__contains__', '__eq__', '__hash__', '__bool__', '__float__', '__int__', '__index__'}
+
+
 def model_request(case, obs):
+    if case['kind'] == 'scenario' and obs.get('touched'):
+        return {'op': 'host_touch'}         # recording host: is every touched dunder explained by the extracted table?
     if case['kind'] != 'fault' or not obs.get('fired'):
         return None
     if G()['by_text']:
@@ -664,6 +696,18 @@ def model_request(case, obs):
 def compare(case, obs, resp):
     if 'error' in resp:
         return ['model error: ' + resp['error']]
+    if 'rows' in resp:
+        have = {(k, p) for k, p, _ in resp['rows']}
+        d = []
+        for name in obs.get('touched') or []:
+            row = DUNDER_ROW.get(name, ('arith', name))
+            if row[0] == 'arith':
+                if not any(k == 'arith' for k, _ in have):
+                    d.append(f'the agent invoked {name} on a host object; the extracted host-touch table has no arithmetic row')
+            elif row not in have:
+                d.append(f'the agent invoked {name} on a host object; the extracted host-touch table has no {row} row '
+                         f'(harness/extract/o8_hosttouch.py misses an operation)')
+        return d
     ver = resp['verdict']
     if ver == 'maybe':
         return []
